@@ -136,6 +136,10 @@ void sniff_loop_raw_handler(u_char* user, const struct pcap_pkthdr* h, const u_c
     const base_ip_header* header = (const base_ip_header*)bytes;
     data->packet_processed = true;
     data->tv = h->ts;
+    // An empty record doesn't even have the version nibble
+    if (h->caplen < sizeof(base_ip_header)) {
+        return;
+    }
     switch (header->version) {
         case 4:
             data->pdu = safe_alloc<IP>((const uint8_t*)bytes, h->caplen);
